@@ -155,6 +155,8 @@ struct Fut {
     fut: Option<Pin<Box<dyn Future<Output = String>>>>,
     socks: Vec<usize>,
     wakes: Arc<Cnt>,
+    /// value of `wakes` when the last poll of this future returned
+    wakes_at_return: usize,
 }
 
 pub struct World {
@@ -200,7 +202,7 @@ impl World {
     }
 
     fn add_fut(&mut self, id: usize, socks: Vec<usize>, f: Pin<Box<dyn Future<Output = String>>>) -> String {
-        self.futs.insert(id, Fut { fut: Some(f), socks, wakes: Arc::new(Cnt(AtomicUsize::new(0))) });
+        self.futs.insert(id, Fut { fut: Some(f), socks, wakes: Arc::new(Cnt(AtomicUsize::new(0))), wakes_at_return: 0 });
         "ok".into()
     }
 
@@ -562,10 +564,23 @@ impl World {
                             if after != before && rounds < 16 {
                                 continue; // woke itself while being polled
                             }
-                            self.futs.get_mut(&f).unwrap().fut = Some(fut);
+                            let fu = self.futs.get_mut(&f).unwrap();
+                            fu.fut = Some(fut);
+                            fu.wakes_at_return = after;
                             return "pending".into();
                         }
                     }
+                }
+            }
+            // has this future's own waker been woken since its last poll returned Pending?
+            "woken" => {
+                let f = num(1).unwrap();
+                match self.futs.get(&f) {
+                    Some(fu) if fu.fut.is_some() => {
+                        if fu.wakes.0.load(Ordering::SeqCst) > fu.wakes_at_return { "woken yes".into() } else { "woken no".into() }
+                    }
+                    Some(_) => "done".into(),
+                    None => "bad-op no-fut".into(),
                 }
             }
             "drop" => {
